@@ -374,6 +374,14 @@ fn c04(a: &Args) -> Report {
     s.io_mode = IoMode::Background;
     s.depth -= 1;
     specs.push(s);
+    // from a reopened storage: two closed blobs whose indexes and filters were read from their
+    // index files, the third blob re-activated; 70-bit bloom filter
+    let mut s = specs[0].clone();
+    s.name = "C04/seq/reopened".into();
+    s.prefix = vec![Op::w(0, 1), Op::Rot, Op::w(1, 2), Op::Rot, Op::w(0, 3), Op::Rst];
+    s.wcfg.bloom = BloomCfg::Bits(70);
+    s.depth = if thorough { 4 } else { 3 };
+    specs.push(s);
     let results = run_specs(&specs, a, &no_known);
     let mut rep = seq_report("C04", a, "model_checking", results, SEQ_RULE);
     // interleavings of a data client with a maintenance client
@@ -490,6 +498,22 @@ fn c10(a: &Args) -> Report {
         let mut s = SeqSpec::new(&format!("C10/storage/group{gs}/{bloom:?}"), alphabet.clone(), if thorough { 5 } else { 4 });
         s.wcfg.group_size = gs;
         s.wcfg.bloom = bloom;
+        s.keys = vec![0, 1, 2, 3, crate::world::ABSENT_KEY];
+        s.checks = Checks { latest: true, filters: true, ..Default::default() };
+        specs.push(s);
+    }
+    // deeper states of the filter hierarchy (groups of three) as starting points: a group with one
+    // member whose node buffer is off-loaded, a group with two members, a full group plus one
+    let small = vec![Op::w(0, 1), Op::w(2, 1), Op::w(3, 1), Op::Rot, Op::Offload { level: 1 }, Op::TryRestore, Op::d(1, 2), Op::Rst];
+    for (pname, prefix) in [
+        ("one-member-offloaded", vec![Op::w(1, 1), Op::Rot, Op::Offload { level: 1 }]),
+        ("two-members", vec![Op::w(1, 1), Op::Rot, Op::w(0, 1), Op::Rot]),
+        ("full-group-plus-one", vec![Op::w(1, 1), Op::Rot, Op::w(0, 1), Op::Rot, Op::w(2, 1), Op::Rot, Op::w(3, 1), Op::Rot]),
+    ] {
+        let mut s = SeqSpec::new(&format!("C10/storage/group3/from-{pname}"), small.clone(), if thorough { 5 } else { 4 });
+        s.prefix = prefix;
+        s.wcfg.group_size = 3;
+        s.wcfg.bloom = BloomCfg::Bits(70);
         s.keys = vec![0, 1, 2, 3, crate::world::ABSENT_KEY];
         s.checks = Checks { latest: true, filters: true, ..Default::default() };
         specs.push(s);
@@ -1101,7 +1125,7 @@ pub fn sched_trace(name: &str) -> i32 {
     specs.push(c08_scale_instance());
     let spec = specs.iter().find(|s| s.name == name).expect("instance").clone();
     let (t, p, o) = sched::run_once(&spec, &[]);
-    for l in t.steps_log.iter().rev().take(14).rev() {
+    for l in t.steps_log.iter().rev().take(std::env::var("PEARL_MC_TRACE_N").ok().and_then(|s| s.parse().ok()).unwrap_or(14)).rev() {
         println!("{l}");
     }
     println!("end {:?} panics {:?} findings {:?}", t.end, p, o.findings);
@@ -1125,6 +1149,13 @@ fn c14_victims() -> Vec<(&'static str, COp, Vec<Op>)> {
         ("Fsync", COp::M(Op::Fsync), vec![Op::w(0, 2)]),
         ("TryRestore", COp::M(Op::TryRestore), vec![Op::w(0, 2), Op::TryClose]),
         ("FreeExcess", COp::M(Op::FreeExcess), vec![Op::w(0, 2), Op::Rot, Op::d(0, 3)]),
+        ("Wmeta", COp::W { k: 0, ts: 10, size: 24, meta: Some(1) }, vec![]),
+        // duplicates disallowed: the existence check over closed blobs precedes the append
+        ("W24-nodup", COp::W { k: 0, ts: 10, size: 24, meta: None }, vec![Op::w(1, 2), Op::Rot]),
+        ("TryCreate", COp::M(Op::TryCreate), vec![Op::w(0, 2), Op::TryClose]),
+        ("CloseBg", COp::M(Op::CloseBg), vec![Op::w(0, 2)]),
+        ("RestoreBg", COp::M(Op::RestoreBg), vec![Op::w(0, 2), Op::TryClose]),
+        ("CreateBg", COp::M(Op::CreateBg), vec![Op::w(0, 2), Op::TryClose]),
     ]
 }
 
@@ -1147,18 +1178,26 @@ fn c14(a: &Args) -> Report {
                 p.extend(extra.iter().cloned());
                 let mut s = SchedSpec::new(&format!("C14/{pname}/{mode:?}/{vname}"), mode, p, vec![vec![victim.clone()]]);
                 s.wcfg.max_data_in_blob = *max_data;
+                if vname.ends_with("-nodup") {
+                    s.wcfg.allow_duplicates = false;
+                }
                 s.followup = vec![COp::R(0), COp::w(1, 50), COp::R(1), COp::M(Op::Rot), COp::w(0, 60), COp::R(0)];
                 s.cancel = Some(sched::Cancel { client: 0, op: 0, k: usize::MAX });
                 s.bound = if thorough { 3 } else { 2 };
-                s.max_execs = if thorough { 30_000 } else { 2_500 };
+                s.max_execs = if thorough { 30_000 } else { 600 };
                 bases.push(s);
             }
         }
     }
     let mut specs: Vec<SchedSpec> = Vec::new();
     let mut poll_counts = Vec::new();
+    let mut base_failures = Vec::new();
     for b in &bases {
-        let (_, _, out) = sched::run_once(b, &[]);
+        let (trace, _, out) = sched::run_once(b, &[]);
+        if trace.end != crate::ctl::EndState::Finished {
+            base_failures.push(format!("{}: the uncancelled run did not finish: {:?}", b.name, trace.end));
+            continue;
+        }
         let n = out.polls_of_victim;
         poll_counts.push(json!({"instance": b.name, "polls_uncancelled": n}));
         for k in 1..n.max(1) {
@@ -1172,6 +1211,10 @@ fn c14(a: &Args) -> Report {
     let mut rep = sched_report("C14", a, results, "every victim operation x prefix state x I/O mode x every k (the future is dropped when its k-th poll returns Pending), then bounded-preemption DFS over the placement of the detached I/O jobs and background tasks relative to the follow-up operations; oracle: effect of the victim all-or-nothing in the session and after a restart, everything else linearizable, blobs parse completely", &|_| None);
     if let serde_json::Value::Object(o) = &mut rep.coverage {
         o.insert("victims".into(), json!(poll_counts));
+    }
+    rep.machinery_errors.extend(base_failures);
+    if specs.is_empty() {
+        rep.machinery_errors.push("no cancellation instance was generated".into());
     }
     rep
 }
@@ -1294,9 +1337,6 @@ fn fault_part(prop: &str, a: &Args, oracle: crate::engines::fault::FaultOracle) 
     let mut specs = Vec::new();
     for (name, h, max_data) in io_histories(if thorough { 3 } else { 2 }) {
         for mode in [IoMode::Inplace, IoMode::Background] {
-            if !thorough && mode == IoMode::Background && !name.starts_with("seed") {
-                continue;
-            }
             let mut s = FaultSpec::new(&format!("{prop}/fault/{name}/{mode:?}"), mode, h.clone());
             s.wcfg.max_data_in_blob = max_data;
             specs.push(s);
